@@ -184,3 +184,15 @@ m('revert_inverse_transpose', ['C03'], '_base/core.py',
   "        transposed = InverseOperator(self.operator.T)\n        object.__setattr__(transposed, 'config', self.config)\n        return transposed\n",
   "        return TransposeOperator(self)\n")
 m('inverse_transpose_drops_config', ['C19'], '_base/core.py', "        object.__setattr__(transposed, 'config', self.config)\n", "", note='the transposed inverse would silently use the configuration active at transposition time; not covered by the C19 histories (no transpose event): documents a miss')
+
+# ---- further behaviour-preserving refactors aimed at the checks added after the seeded rounds 3-5 -------------------------------
+m('benign_from_stokes_sorted_items', ['C20'], 'landscapes.py', '            args = tuple(keywords[stoke] for stoke in stokes)\n',
+  '            args = tuple(value for _, value in sorted(keywords.items()))\n', note='same order: stokes is the sorted key string')
+m('benign_stokes_matmul_vdot', ['C20'], 'landscapes.py', '        return dot(self, other)\n',
+  '        return sum(jnp.vdot(a, b) for a, b in zip(jax.tree.leaves(self), jax.tree.leaves(other)))\n', note='vdot conjugates its first argument, as tree.dot does')
+m('benign_lazy_transpose_as_matrix', ['C04', 'C03', 'C18'], '_base/core.py',
+  "    def transpose(self) -> AbstractLinearOperator:\n        return self.operator\n\n\nclass AbstractLazyInverseOperator(",
+  "    def transpose(self) -> AbstractLinearOperator:\n        return self.operator\n\n    def as_matrix(self) -> Inexact[Array, 'a b']:\n        matrix: Array = self.operator.as_matrix().T\n        return matrix\n\n\nclass AbstractLazyInverseOperator(",
+  note='correct dense shortcut for the lazy transpose (no conjugation)')
+m('benign_strict_diagonal_tuple_compare', ['C05', 'C08', 'C11'], '_base/diagonal.py', '        if shape != input_shape:\n', '        if tuple(shape) != tuple(input_shape):\n')
+m('benign_toeplitz_cast_via_asarray', ['C09', 'C05'], 'operators/toeplitz.py', '            Y_padded = Y_padded.astype(dtype)\n', '            Y_padded = jnp.asarray(Y_padded, dtype=dtype)\n')
